@@ -10,6 +10,7 @@ CONSTANTS
   HasReader = FALSE
   ClosesSocket = FALSE
   PopAtomic = TRUE
+  ParkWakes = "conn"
   Noise = {"silent", "unsolicited", "garbage"}
 INVARIANTS NoFalseError SlotsSane OnceEach SockOnce DoneOnceIfReaderOnly
 PROPERTIES Ends CloseCompletes
